@@ -167,13 +167,26 @@ that records every `basic_stream` call.  `P.aparse` / `Sk.askip` (`Spec/C12Gramm
 same combinators on a bare index: to backtrack is to continue at the index where the sub-parser
 started, the location of an error is computed from the text. -/
 
+/-- histories of stream operations are histories in the wider sense (`XOp`: stream operations and
+whole parses), so the theorems below, stated for the latter, cover them -/
+theorem xrun_ops (h : HState) (ops : List Op) : xrun h (ops.map .op) = (run h ops).1 := by
+  induction ops generalizing h with
+  | nil => rfl
+  | cons o os ih => simp only [List.map_cons, xrun, xstep, run]; exact ih _
+
+theorem ops_wf (ops : List Op) : ∀ o ∈ ops.map XOp.op, o.wf = true := by
+  intro o ho
+  obtain ⟨_, _, rfl⟩ := List.mem_map.mp ho
+  rfl
+
 /-- a recorded call left the stream live over the text `t` with the true line and column stored -/
 def Ev.True (t : List Ch) (e : Ev) : Prop :=
   e.s.is.buf = t ∧ e.s.is.idx ≤ t.length ∧ e.s.is.bad = false ∧
     e.s.loc = ⟨line t e.s.is.idx, column t e.s.is.idx⟩
 
 /-- **The combinators refine the PEG semantics on indices, call by call.**  In every state reached
-by any history on a plain stream (any recorded log), `phrase_parse(p, stream, sk)` — leading
+on a plain stream by any history of reads, position saves, rewinds and earlier parses of well-formed
+grammars (`XOp`; any recorded log), `phrase_parse(p, stream, sk)` — leading
 skipper, then the parser — for every parser `p` and skipper `sk`:
 * diverges exactly if the index semantics does (only possible for a repetition whose body succeeds
   without consuming, see `wellformed_returns`);
@@ -182,8 +195,8 @@ skipper, then the parser — for every parser `p` and skipper `sk`:
   that index's true line/column stored;
 * and EVERY `get_char` / `get_position` / `set_position` call the combinators issued on the way left
   the stream with the true line/column of its index stored (the log grows by such calls only). -/
-theorem combinators_refine_peg (t : List Ch) (ops : List Op) (log : List Ev) (sk : Sk) (p : P) :
-    let x : TS := ⟨(run (HState.open t none) ops).1.s, log⟩
+theorem combinators_refine_peg (t : List Ch) (xs : List XOp) (hw : ∀ o ∈ xs, o.wf = true) (log : List Ev) (sk : Sk) (p : P) :
+    let x : TS := ⟨(xrun (HState.open t none) xs).s, log⟩
     let o := (sk.skip x).andThen (p.parse sk)
     match aphrase t p sk x.s.is.idx with
     | .error f => o.2 = .error f
@@ -192,7 +205,7 @@ theorem combinators_refine_peg (t : List Ch) (ops : List Op) (log : List Ev) (sk
         o.1.s.loc = ⟨line t j, column t j⟩ ∧
         ∃ new, o.1.log = new ++ log ∧ ∀ e ∈ new, Ev.True t e := by
   intro x o
-  have hat : At t x.s x.s.is.idx := Reach.at (t := t) (h := (run (HState.open t none) ops).1) ⟨ops, rfl⟩
+  have hat : At t x.s x.s.is.idx := live_at (liveH_xrun xs (liveH_open t) hw)
   have := agrees_andThen (skip_agrees sk x _ hat) (parse_agrees (t := t) sk p)
   show match (sk.askip t x.s.is.idx).andThen (p.aparse t sk) with
     | .error f => o.2 = .error f
@@ -249,11 +262,11 @@ theorem location_inv_with_parses (t : List Ch) (k : Option Nat) (xs : List XOp) 
 
 /-- `fcppt::parse::phrase_parse` itself (the function-try-block included): the result is the one of
 the index semantics whenever that returns. -/
-theorem phrase_result (t : List Ch) (ops : List Op) (log : List Ev) (sk : Sk) (p : P) (r : R) (j : Nat) :
-    let x : TS := ⟨(run (HState.open t none) ops).1.s, log⟩
+theorem phrase_result (t : List Ch) (xs : List XOp) (hw : ∀ o ∈ xs, o.wf = true) (log : List Ev) (sk : Sk) (p : P) (r : R) (j : Nat) :
+    let x : TS := ⟨(xrun (HState.open t none) xs).s, log⟩
     aphrase t p sk x.s.is.idx = .ok (r, j) → (TS.phrase p sk x).2 = r ∧ (TS.phrase p sk x).1.s.is.idx = j := by
   intro x ha
-  have := combinators_refine_peg t ops log sk p
+  have := combinators_refine_peg t xs hw log sk p
   simp only at this
   rw [ha] at this
   obtain ⟨h1, h2, _⟩ := this
@@ -277,30 +290,30 @@ theorem wellformed_returns (t : List Ch) (sk : Sk) (p : P) (hs : sk.wf = true) (
 /-- **`not_` consumes nothing, exactly**: whatever the inner parser read (across newlines, into
 the end of input), afterwards the stream is in exactly the state the initial `get_position` left —
 same index, same three state bits, same stored location. -/
-theorem not_restores_exactly (t : List Ch) (ops : List Op) (log : List Ev) (sk : Sk) (p : P) (r : R) (j : Nat) :
-    let x : TS := ⟨(run (HState.open t none) ops).1.s, log⟩
+theorem not_restores_exactly (t : List Ch) (xs : List XOp) (hw : ∀ o ∈ xs, o.wf = true) (log : List Ev) (sk : Sk) (p : P) (r : R) (j : Nat) :
+    let x : TS := ⟨(xrun (HState.open t none) xs).s, log⟩
     p.aparse t sk x.s.is.idx = .ok (r, j) → ((P.not p).parse sk x).1.s = x.s.getPosition.1 := by
   intro x ha
-  exact not_exact sk p (Reach.at (t := t) (h := (run (HState.open t none) ops).1) ⟨ops, rfl⟩) ha
+  exact not_exact sk p (live_at (liveH_xrun xs (liveH_open t) hw)) ha
 
 /-- **`optional` of a failing parser consumes nothing, exactly** (same statement). -/
-theorem optional_restores_exactly (t : List Ch) (ops : List Op) (log : List Ev) (sk : Sk) (p : P)
+theorem optional_restores_exactly (t : List Ch) (xs : List XOp) (hw : ∀ o ∈ xs, o.wf = true) (log : List Ev) (sk : Sk) (p : P)
     (e : PError) (j : Nat) :
-    let x : TS := ⟨(run (HState.open t none) ops).1.s, log⟩
+    let x : TS := ⟨(xrun (HState.open t none) xs).s, log⟩
     p.aparse t sk x.s.is.idx = .ok (.error e, j) → ((P.opt p).parse sk x).1.s = x.s.getPosition.1 := by
   intro x ha
-  exact opt_exact sk p (Reach.at (t := t) (h := (run (HState.open t none) ops).1) ⟨ops, rfl⟩) ha
+  exact opt_exact sk p (live_at (liveH_xrun xs (liveH_open t) hw)) ha
 
 /-- **A position saved before a parse is still exact after it**: `p0` obtained by `get_position`
 in a reachable state (leaving stream state `s1`); later, from any reachable state, any
 `phrase_parse` that returns; then `set_position p0` yields exactly `s1` again. -/
 theorem saved_position_survives_parse (t : List Ch) (x1 : HState) (r1 : Reach t x1) (s1 : Stream) (p0 : Pos)
-    (hp : x1.s.getPosition = (s1, .ok p0)) (ops : List Op) (log : List Ev) (sk : Sk) (p : P) (r : R) (j : Nat) :
-    let x : TS := ⟨(run (HState.open t none) ops).1.s, log⟩
+    (hp : x1.s.getPosition = (s1, .ok p0)) (xs : List XOp) (hw : ∀ o ∈ xs, o.wf = true) (log : List Ev) (sk : Sk) (p : P) (r : R) (j : Nat) :
+    let x : TS := ⟨(xrun (HState.open t none) xs).s, log⟩
     aphrase t p sk x.s.is.idx = .ok (r, j) →
       ((sk.skip x).andThen (p.parse sk)).1.s.setPosition p0 = (s1, .ok ()) := by
   intro x ha
-  have hat : At t x.s x.s.is.idx := Reach.at (t := t) (h := (run (HState.open t none) ops).1) ⟨ops, rfl⟩
+  have hat : At t x.s x.s.is.idx := live_at (liveH_xrun xs (liveH_open t) hw)
   have := agrees_andThen (skip_agrees sk x _ hat) (parse_agrees (t := t) sk p)
   have ha' : (sk.askip t x.s.is.idx).andThen (p.aparse t sk) = .ok (r, j) := ha
   rw [ha'] at this
